@@ -121,10 +121,13 @@ fn c04_sweep<T: Elem>(st: &mut Stats, args: &Args, lengths: &[usize], planners: 
                 let drop = divs.len() - 3;
                 divs.drain(0..drop);
             }
-            if divs.is_empty() {
+            if divs.is_empty() && crate::cases::is_prime(n) {
                 continue;
             }
-            for variant in 0..2 {
+            for variant in 0..3 {
+                if divs.is_empty() && variant != 2 {
+                    continue;
+                }
                 let mut planner = AnyPlanner::<T>::new(pk).unwrap();
                 let main_dir = if (n + variant) % 2 == 0 { Dir::Fwd } else { Dir::Inv };
                 let mut reqs: Vec<(usize, Dir)> = divs
@@ -133,6 +136,26 @@ fn c04_sweep<T: Elem>(st: &mut Stats, args: &Args, lengths: &[usize], planners: 
                     .map(|(i, d)| (*d, if variant == 1 && i % 2 == 1 { if main_dir == Dir::Fwd { Dir::Inv } else { Dir::Fwd } } else { main_dir }))
                     .collect();
                 reqs.push((n, main_dir));
+                if variant == 2 {
+                    // the other way round: n first, then its divisors (largest first), then its prime factors
+                    reqs.reverse();
+                    let mut m = n;
+                    let mut p = 2;
+                    while p * p <= m {
+                        if m % p == 0 {
+                            if p > 7 {
+                                reqs.push((p, main_dir));
+                            }
+                            while m % p == 0 {
+                                m /= p;
+                            }
+                        }
+                        p += 1;
+                    }
+                    if m > 7 && m != n {
+                        reqs.push((m, main_dir));
+                    }
+                }
                 for (len, dir) in reqs.iter().copied() {
                     let case = format!("planner={} type={} dir={} n={} via=planner-with-history{:?}", pk.name(), T::NAME, dname(dir), len,
                         reqs.iter().map(|(l, d)| format!("{}{}", l, if *d == Dir::Fwd { "f" } else { "i" })).collect::<Vec<_>>());
@@ -645,16 +668,16 @@ pub fn run_c06(args: &Args) {
     let mut st = Stats::new();
     let lengths = crate::shape::lengths_from_args(
         args,
-        if t { 32768 } else { 2048 },
+        if t { 8192 } else { 2048 },
         if t { 1 << 22 } else { 1 << 18 },
-        if t { 400 } else { 90 },
+        if t { 300 } else { 90 },
         0xC06,
     );
     let mut lengths = lengths;
     // prime sweep: primes are where the special algorithms (Rader, Bluestein) and their number theory live; the round trip
     // is oracle-free, so every prime up to the bound is affordable
     if args.get("only-n").is_none() && args.get("ns").is_none() {
-        let dense_max = args.get_usize("dense-max").unwrap_or(if t { 32768 } else { 2048 });
+        let dense_max = args.get_usize("dense-max").unwrap_or(if t { 8192 } else { 2048 });
         let prime_max = args.get_usize("prime-max").unwrap_or(if t { 131072 } else { 20000 });
         let primes: Vec<usize> = (dense_max + 1..=prime_max).filter(|n| crate::cases::is_prime(*n)).collect();
         st.add("primes_in_sweep", primes.iter().enumerate().filter(|(i, _)| crate::cases::mine(*i, args.shard)).count());
